@@ -1090,7 +1090,8 @@ impl<'a> CompactionIterator<'a> {
 		// below a hard DELETE that stays in the output remain masked by it; they
 		// only have to go when the DELETE itself is dropped.
 		let mut older_than_dropped_hard_delete = false;
-		// A hard DELETE or REPLACE newer than the current version exists.
+		// A hard DELETE or REPLACE newer than the current version exists, and every
+		// open reader sees it.
 		let mut newer_barrier_seen = false;
 
 		// Track the visibility of the previous (newer) version we processed.
@@ -1188,12 +1189,16 @@ impl<'a> CompactionIterator<'a> {
 				// sit in tables below the target level, which this compaction does
 				// not see - so the barrier itself has to survive until the bottom
 				// level (and there, until no snapshot older than it is left).
-				// (A newer barrier makes this one redundant.)
+				// (A newer barrier makes this one redundant - once every open reader
+				// sees that newer barrier. A reader that began between the two sees
+				// this DELETE only: dropped, the versions below it - here or on a
+				// deeper level - would come back for that reader.)
 				// While a reader older than this DELETE is open, the versions below
 				// it stay (see the end of the loop), and so must the DELETE: a
 				// reader that began after it would see them come back.
 				!self.enable_versioning
-					|| ((newer_barrier_seen || self.is_bottom_level)
+					|| newer_barrier_seen
+					|| (self.is_bottom_level
 						&& self.snapshots.first().is_none_or(|&oldest| oldest >= seq_num))
 			} else if older_than_dropped_hard_delete {
 				// A newer hard DELETE erased this version
@@ -1255,7 +1260,7 @@ impl<'a> CompactionIterator<'a> {
 			if is_hard_delete && should_mark_stale && seen_by_all_readers {
 				older_than_dropped_hard_delete = true;
 			}
-			if is_hard_delete || is_replace {
+			if (is_hard_delete || is_replace) && seen_by_all_readers {
 				newer_barrier_seen = true;
 			}
 		}
